@@ -23,17 +23,21 @@ first `total` elements of the sequential stream as a multiset and every thread's
 -/
 open Rlib Rlib.TreapConc
 
-def parseParams? (ts : List String) : Option (LcgParams × UInt64) :=
+/-- `A = C = 0` in the case line: the extractor could not read the generator's arithmetic. The model then runs with a
+    stand-in generator (any generator will do: the theorems hold for all of them) and only the numbers of draws are printed. -/
+def standIn : LcgParams :=
+  { a := 6364136223846793005, c := 1442695040888963407, mixMul := 0xff51afd7ed558ccd, mixShift := 33, prioBits := 32 }
+
+def parseParams? (ts : List String) : Option (LcgParams × UInt64 × Bool) :=
   match parseNats? ts with
   | some [a, c, mm, sh, bits, seed] =>
-    if a < 2 ^ 64 ∧ c < 2 ^ 64 ∧ mm < 2 ^ 64 ∧ sh < 64 ∧ seed < 2 ^ 64 then
-      some ({ a := .ofNat a, c := .ofNat c, mixMul := .ofNat mm, mixShift := .ofNat sh, prioBits := bits }, .ofNat seed)
+    if a = 0 ∧ c = 0 then some (standIn, 42, true)
+    else if a < 2 ^ 64 ∧ c < 2 ^ 64 ∧ mm < 2 ^ 64 ∧ sh < 64 ∧ seed < 2 ^ 64 then
+      some ({ a := .ofNat a, c := .ofNat c, mixMul := .ofNat mm, mixShift := .ofNat sh, prioBits := bits }, .ofNat seed, false)
     else none
   | _ => none
 
-def showRun (D : Discipline) (p : LcgParams) (hist : List UInt64) (rs : List (List UInt64)) : String :=
-  -- `A = C = 0`: the extractor could not read the generator's arithmetic; only the numbers of draws are predicted
-  let blind := p.a = 0 ∧ p.c = 0
+def showRun (D : Discipline) (blind : Bool) (hist : List UInt64) (rs : List (List UInt64)) : String :=
   if D.isShared then "U " ++ (if blind then toString hist.length else summ (sortWords hist))
   else "T " ++ ";".intercalate (rs.map (fun r => if blind then toString r.length else summ r))
 
@@ -52,19 +56,19 @@ def viewRun (D : Discipline) (g : Gen UInt64 UInt64) (seed : UInt64) (progs : Li
     if (rs.zip progs).all (fun (r, m) => r == stream g seed m) then "ok"
     else "fail:thread-stream-differs-from-sequential"
 
-def runLine (D : Discipline) (p : LcgParams) (seed : UInt64) (progs : List Nat) (sched : List Nat) : String :=
+def runLine (D : Discipline) (p : LcgParams) (seed : UInt64) (blind : Bool) (progs : List Nat) (sched : List Nat) : String :=
   let g := lcgGen p
   let st := exec D g (init seed progs) sched
   let hist := history st
   let rs := (List.range progs.length).map (results st)
-  answer3 (showRun D p hist rs) (viewRun D g seed progs hist rs) "ok"
+  answer3 (showRun D blind hist rs) (viewRun D g seed progs hist rs) "ok"
 
-def runFine (D : Discipline) (p : LcgParams) (seed : UInt64) (progs : List Nat) (sched : List Nat) : String :=
+def runFine (D : Discipline) (p : LcgParams) (seed : UInt64) (blind : Bool) (progs : List Nat) (sched : List Nat) : String :=
   let g := lcgGen p
   let st := (fexec D g (finit seed progs) sched).abs
   let hist := history st
   let rs := (List.range progs.length).map (results st)
-  answer3 (showRun D p hist rs) (viewRun D g seed progs hist rs) "ok"
+  answer3 (showRun D blind hist rs) (viewRun D g seed progs hist rs) "ok"
 
 def showStream (xs : List UInt64) : String := if xs.length ≤ 32 then showListWith toString xs else summ xs
 
@@ -75,28 +79,28 @@ def handle (line : String) : String :=
     | ["disc"] => answer RngDiscipline.current.name RngDiscipline.current.name
     | "stream" :: rest =>
       match parseParams? (rest.take 6), parseNats? (rest.drop 6) with
-      | some (p, seed), some [n] =>
+      | some (p, seed, _), some [n] =>
         let g := lcgGen p
         let st := exec .threadLocal g (init seed [n]) (List.replicate n 0)
         answer (showStream (results st 0)) (showStream (stream g seed n))
       | _, _ => badLine line
     | "tie" :: d :: rest | "deep" :: d :: rest | "conc" :: d :: rest =>
       match Discipline.parse? d, parseNats? (rest.take 3), parseParams? (rest.drop 3) with
-      | some D, some [k, m, opseed], some (p, seed) =>
+      | some D, some [k, m, opseed], some (p, seed, blind) =>
         let progs := List.replicate k m
         let order := randomOrder (k * m) (UInt64.ofNat opseed) progs []
-        runLine D p seed progs (expand D order)
+        runLine D p seed blind progs (expand D order)
       | _, _, _ => badLine line
     | _ => badLine line
   | [hdr, ps, ss] =>
     match tokens hdr with
     | "sched" :: d :: rest =>
       match Discipline.parse? d, parseParams? rest, parseNats? (tokens ps), parseNats? (tokens ss) with
-      | some D, some (p, seed), some progs, some sched => runLine D p seed progs sched
+      | some D, some (p, seed, blind), some progs, some sched => runLine D p seed blind progs sched
       | _, _, _, _ => badLine line
     | "fsched" :: d :: rest =>
       match Discipline.parse? d, parseParams? rest, parseNats? (tokens ps), parseNats? (tokens ss) with
-      | some D, some (p, seed), some progs, some sched => runFine D p seed progs sched
+      | some D, some (p, seed, blind), some progs, some sched => runFine D p seed blind progs sched
       | _, _, _, _ => badLine line
     | _ => badLine line
   | _ => badLine line
